@@ -58,7 +58,7 @@ def sections (toks : List String) : List (List String) :=
 /-- RFC 5052 partition through the model of partition.rs: source symbols per block, and the
     byte length the receiver accounts for each block.  Objects of more than 200000 blocks (only
     the never-transmitted boundary objects of the refusal clause) are cut to their first 64 blocks. -/
-def blocksOf (sch : Scheme) (tl e b : Nat) : Option (List Nat × List Nat × Nat) :=
+def blocksOf (sch : Scheme) (tl e b : Nat) : Option (Array Nat × Array Nat × Nat) :=
   match Partition.blockPartitioning b tl e with
   | .error _ => none
   | .ok (aL, aS, nL, n) =>
@@ -68,7 +68,7 @@ def blocksOf (sch : Scheme) (tl e b : Nat) : Option (List Nat × List Nat × Nat
     let blen := (List.range n').map (fun s =>
       let k := if s < nL then aL else aS
       if sch == .rsus then k * e else min (k * e) (tl - first s * e))
-    some (ks, blen, aL)
+    some (ks.toArray, blen.toArray, aL)
 
 structure Loaded where
   cfg : SessCfg
@@ -124,8 +124,8 @@ def loadSession (toks : List String) : SessRes :=
       let ssec := (secs.find? (fun s => s.head? == some "s")).map (·.drop 1)
       let objRes : Option (List (Option ObjCfg × Bool × Bool)) := osecs.mapM (fun sec =>
         let kv := kvOf (sec.drop 1)
-        match look kv "oti", look kv "m", look kv "car", look kv "cc", look kv "toi", look kv "tl" with
-        | some otiS, some m, some car, some cc, some toiS, some tlS =>
+        match look kv "oti", look kv "m", look kv "car", look kv "cc", look kv "toi", look kv "tl", look kv "src" with
+        | some otiS, some m, some car, some cc, some toiS, some tlS, some src =>
           let oti? : Option OtiP := if otiS == "-" then some doti else parseOti otiS
           match oti?, m.toNat? with
           | some oti, some m =>
@@ -143,9 +143,10 @@ def loadSession (toks : List String) : SessRes :=
                   | some toi =>
                     some (some { toi := toi, scheme := oti.sch, ks := ks, blen := blen, p := oti.p,
                                  inbandFti := oti.ifti, transfers := m, carousel := car != "-",
-                                 noCache := cc == "nocache" }, true, ref)
+                                 noCache := cc == "nocache",
+                                 streamSrc := src == "stream" || src == "file" || src == "sparse" }, true, ref)
           | _, _ => none
-        | _, _, _, _, _, _ => none)
+        | _, _, _, _, _, _, _ => none)
       let fdtRes : Option (List FdtCfg) := (fsec.getD []).mapM (fun t =>
         match t.splitOn ":" with
         | [id, len, tois] =>
